@@ -72,8 +72,8 @@ pub fn summarize(r: &Record) -> Summary {
 pub fn transfers_complete(scn: &Scenario, s: &Summary) -> bool {
     (0..scn.n_streams()).all(|i| {
         let id = scn.stream_id(i);
-        let size = scn.stream_size(i) as u64;
-        s.eof.get(&(CLIENT, id)) == Some(&size) && s.eof.get(&(SERVER, id)) == Some(&size)
+        // the server reads the request, the client reads the response
+        s.eof.get(&(CLIENT, id)) == Some(&(scn.resp_size(i) as u64)) && s.eof.get(&(SERVER, id)) == Some(&(scn.req_size(i) as u64))
     })
 }
 
@@ -153,14 +153,14 @@ pub fn check(scn: &Scenario, r: &Record) -> Vec<(String, String)> {
         }
     }
     for ((ep, id), total) in &s.eof {
-        match scn.size_of_id(*id) {
+        match if *ep == SERVER { scn.req_size_of_id(*id) } else { scn.resp_size_of_id(*id) } {
             Some(size) if size as u64 == *total => {}
             Some(size) => out.push(("c07.data".into(), format!("{} saw FIN of stream {} after {} bytes, the peer wrote {}", side(scn, *ep), id, total, size))),
             None => out.push(("c07.data".into(), format!("{} saw a stream {} nobody opened", side(scn, *ep), id))),
         }
     }
     for ((ep, id), n) in &s.read {
-        if let Some(size) = scn.size_of_id(*id) {
+        if let Some(size) = if *ep == SERVER { scn.req_size_of_id(*id) } else { scn.resp_size_of_id(*id) } {
             if *n > size as u64 {
                 out.push(("c07.data".into(), format!("{} read {} bytes of stream {}, the peer wrote only {}", side(scn, *ep), n, id, size)));
             }
@@ -188,9 +188,10 @@ pub fn check(scn: &Scenario, r: &Record) -> Vec<(String, String)> {
         for i in 0..scn.n_streams() {
             let id = scn.stream_id(i);
             prog.push(format!(
-                "stream {} ({} B): server read {}{} client read {}{}",
+                "stream {} (request {} B, response {} B): server read {}{} client read {}{}",
                 id,
-                scn.stream_size(i),
+                scn.req_size(i),
+                scn.resp_size(i),
                 s.read.get(&(SERVER, id)).copied().unwrap_or(0),
                 if s.eof.contains_key(&(SERVER, id)) { "+FIN" } else { "" },
                 s.read.get(&(CLIENT, id)).copied().unwrap_or(0),
